@@ -39,10 +39,20 @@ type c15Case struct {
 	Flap      bool   `json:"flap"`       // a second outage 1 s after the first recovery, for 2 s
 	ConnectMs int    `json:"connect_ms"` // namespace middleware delay: the CONNECT stays pending that long
 	Emits     []c15Emit `json:"emits"`
+	Recovery  bool   `json:"recovery"` // connection state recovery enabled on the server (the reconnecting CONNECT carries pid + offset)
+	Auth      string `json:"auth"`     // "" | map | struct | structptr: the socket's auth data, which must arrive with every CONNECT
+}
+
+type c15Auth struct {
+	Token string `json:"token"`
+	N     int    `json:"n,omitempty"`
 }
 
 func (c c15Case) class() string {
 	cls := c.Transport
+	if c.Recovery && c.Auth != "" {
+		cls += ",recovery+auth"
+	}
 	if c.UpAtMs < 0 {
 		cls += ",permanent"
 	}
@@ -88,13 +98,17 @@ func evalC15(c c15Case) (f *Failure, nontrivial bool) {
 	}
 	journal(c15Check, class, c)
 	var res *Failure
-	msg := runRig(rigOpts{}, func(r *rig) {
+	msg := runRig(rigOpts{Recovery: c.Recovery}, func(r *rig) {
 		start := time.Now()
 		var mu sync.Mutex
 		var events []c15Event
+		var auths []string // the auth payload of every CONNECT the server saw
 		var received []int // tokens in the order their handlers ran (any server socket)
 		var srvErrs []string
-		r.Server.Use(func(s sio.ServerSocket, _ *sio.Handshake) any {
+		r.Server.Use(func(s sio.ServerSocket, h *sio.Handshake) any {
+			mu.Lock()
+			auths = append(auths, string(h.Auth))
+			mu.Unlock()
 			s.OnEvent("e", func(tok int) { mu.Lock(); received = append(received, tok); mu.Unlock() })
 			s.OnEvent("a", func(tok int, ack func(int)) {
 				mu.Lock()
@@ -128,6 +142,14 @@ func evalC15(c c15Case) (f *Failure, nontrivial bool) {
 		m.OnClose(func(sio.Reason, error) { rec("close", 0) })
 		m.OnOpen(func() { rec("open", 0) })
 		cli := m.Socket("/", nil)
+		switch c.Auth {
+		case "map":
+			cli.SetAuth(map[string]any{"token": "t0k", "n": 7})
+		case "struct":
+			cli.SetAuth(c15Auth{Token: "t0k", N: 7})
+		case "structptr":
+			cli.SetAuth(&c15Auth{Token: "t0k", N: 7})
+		}
 		connects := 0
 		var connectAt []time.Duration
 		cli.OnConnect(func() { mu.Lock(); connects++; connectAt = append(connectAt, time.Since(start)); mu.Unlock() })
@@ -163,8 +185,8 @@ func evalC15(c c15Case) (f *Failure, nontrivial bool) {
 				}
 			}})
 		}
-		down := func() { r.Net.Refuse = true; r.Net.CutAll() }
-		up := func() { r.Net.Refuse = false }
+		down := func() { r.Net.SetRefuse(true); r.Net.CutAll() }
+		up := func() { r.Net.SetRefuse(false) }
 		actions = append(actions, action{c.DownAtMs, down})
 		if c.UpAtMs >= 0 {
 			actions = append(actions, action{c.UpAtMs, up})
@@ -289,6 +311,19 @@ func evalC15(c c15Case) (f *Failure, nontrivial bool) {
 			if !cli.Connected() {
 				res = fail("reconnects-when-reachable", fmt.Sprintf("the server has been reachable again since %d ms, the socket is not connected %v later (events %v)", c.UpAtMs, time.Since(start)-time.Duration(c.UpAtMs)*time.Millisecond, c15Fmt(events)))
 				return
+			}
+		}
+		// ---- every CONNECT carried the auth data
+		if c.Auth != "" {
+			for i, a := range auths {
+				var got struct {
+					Token string `json:"token"`
+					N     int    `json:"n"`
+				}
+				if err := json.Unmarshal([]byte(a), &got); err != nil || got.Token != "t0k" || got.N != 7 {
+					res = fail("auth-on-every-connect", fmt.Sprintf("CONNECT %d of %d arrived with auth %q (want token t0k, n 7)", i+1, len(auths), a))
+					return
+				}
 			}
 		}
 		// ---- delivery of what was emitted
@@ -417,6 +452,8 @@ func genC15Case(t *rapid.T, allowPending bool) c15Case {
 	c := c15Case{Transport: rapid.SampledFrom([]string{"polling", "websocket"}).Draw(t, "transport"), Attempts: uint32(rapid.IntRange(0, 5).Draw(t, "attempts")),
 		DelayMs: rapid.SampledFrom([]int{50, 100, 1000}).Draw(t, "delay"), Jitter: rapid.SampledFrom([]float32{0, 0, 0.5, 1}).Draw(t, "jitter")}
 	c.MaxMs = c.DelayMs * rapid.SampledFrom([]int{1, 2, 5, 20}).Draw(t, "maxFactor")
+	c.Recovery = rapid.IntRange(0, 2).Draw(t, "recovery") == 0
+	c.Auth = rapid.SampledFrom([]string{"", "", "map", "struct", "structptr"}).Draw(t, "auth")
 	if allowPending && rapid.IntRange(0, 2).Draw(t, "slowConnect") == 0 {
 		c.ConnectMs = rapid.SampledFrom([]int{200, 500}).Draw(t, "connectMs")
 	}
